@@ -23,6 +23,7 @@ import (
 
 	jobSource "github.com/mimiro-io/datahub/internal/jobs/source"
 	"github.com/mimiro-io/datahub/internal/server"
+	"github.com/mimiro-io/datahub/internal/verifhook"
 )
 
 const defaultBatchSize = 10000
@@ -148,10 +149,12 @@ func (pipeline *FullSyncPipeline) sync(job *job, ctx context.Context) (int, erro
 	}
 
 	pipeline.source.EndFullSync()
+	verifhook.Point("full.before-end")
 	err = pipeline.sink.endFullSync(ctx, runner)
 	if err != nil {
 		return entCnt, err
 	}
+	verifhook.Point("full.after-end")
 
 	if pipeline.transform != nil {
 		err = pipeline.transform.EndStoreContext(job.id)
@@ -302,6 +305,7 @@ func (pipeline *IncrementalPipeline) sync(job *job, ctx context.Context) (int, e
 					}
 				}
 
+				verifhook.Point("incr.after-sink")
 				// store token if there is one
 				if continuationToken.GetToken() != "" {
 					syncJobState.ContinuationToken, err = continuationToken.Encode()
